@@ -8,11 +8,14 @@ TRUSTED = [
     "harness/translate_rd.py (RDPy translator; runtime primitives Model/RDPy.lean) RE-TRANSLATES from /repo's relativedelta.py "
     "into Generated/RDOps.lean on every run: __add__ (three Lean functions: date/datetime, relativedelta and timedelta "
     "operand - isinstance on the declared operand type is decided statically), __radd__, __rsub__, __neg__, __abs__, __sub__, "
-    "__mul__ (integer scalar; float() / int() are the identity on the integer domain), __bool__, __eq__, __hash__ (the tuple), "
+    "__mul__ (integer scalar; float() / int() are the identity on the integer domain; and a second translation for a DYADIC float "
+    "factor m/2^k: int(field * f) = the quotient field*m / 2^k truncated toward zero), __div__ (divisor +-2^k: 1/float(other) is exact), "
+    "normalized() (integer fields: round / int are the identity, every remainder is 0), __bool__, __eq__, __hash__ (the tuple), "
     "and both branches of __init__ (keyword constructor incl. the unrolled ydayidx scan and the weekday coercion; "
     "relativedelta(dt1, dt2) incl. the while loop as a fuel-bounded recursion); _fix / _set_months as before "
     "(translate.py). Anything outside the fragment aborts with a named construct (broken tie). Proofs/RDGenEq.lean proves "
-    "Gen.f = model f for: addDt = applyTo, raddDt, rsubDt, neg, abs, addRd, subRd, addTd, mulInt, bool, eq, hashKey, "
+    "Gen.f = model f for: addDt = applyTo, raddDt, rsubDt, neg, abs, addRd, subRd, addTd, mulInt, mulDy = mulDyadic, divPow2, "
+    "normalized = normalizedInt (Proofs/RDScale.lean), bool, eq, hashKey, "
     "initDiff = diffN (out of fuel = NotImplemented), initKw = mk for EVERY keyword set (initKw_eq: yearday / nlyearday "
     "scan, integer / object weekday, the ValueError and IndexError branches); the `_gen` theorems of the Audit file restate the property theorems over the generated definitions",
     "STILL HAND-MODELLED, tied by sampling only: (a) the named primitives of Model/RDPy.lean = CPython behaviour "
@@ -20,10 +23,13 @@ TRUSTED = [
     "x + timedelta, x.weekday(), isinstance(x, datetime), datetime.fromordinal(d.toordinal()), <, > and - between "
     "date/datetime objects incl. the same-object / UTC rule, timedelta.days/.seconds/.microseconds, weekdays[i], "
     "attributes of a weekday object, `a or b`, truthiness of Optional values), exercised by rdgen.* on every run; "
-    "(b) __div__, normalized(), __repr__, the `weeks` property, float-valued fields (not translated). The hashed tuple is "
+    "(b) __repr__, the `weeks` property and its setter (hand model RDH.weeksOf / setWeeks, ops rd.weeks / rd.setweeks / rd.hist), "
+    "__div__ by anything but +-2^k, `*` by non-dyadic floats, float-valued FIELDS and normalized() of them (not translated; "
+    "the dyadic primitives RDPy.Dy / intMulDy / truncDy / recipPow2 are the exact reading of IEEE double arithmetic, valid while "
+    "|field*m| < 2**53: the correspondence stays inside that range). The hashed tuple is "
     "translated element by element in source order (hashList) and captured in the same order from the implementation",
     "the translator itself is validated on every run: every correspondence request to a hand-model op (rd.add, rd.rsub, "
-    "rd.mk, rd.expr, rd.bool, rd.hash, rd.eq, rd.diff, rd.diffn, rd.diffo) is repeated against the generated definition "
+    "rd.mk, rd.expr, rd.bool, rd.hash, rd.eq, rd.diff, rd.diffn, rd.diffo, rd.muldy, rd.divp2, rd.normalized) is repeated against the generated definition "
     "(rdgen.*) and compared with the implementation",
     "Generated/RDKernels.lean (Gen.fix, Gen.setMonths) is re-translated from relativedelta._fix/_set_months on every run; "
     "the normalisation theorems are stated about that translation; the translator is validated on every run by rd.fix / "
@@ -32,7 +38,10 @@ TRUSTED = [
     "the correspondence ops rd.mk / rd.expr (random expression trees) / rd.bool / rd.eq / rd.hash, and rd.add (applyTo, on the values and their weekday n re-spellings: what eq_applyTo rests on); the tuple passed to "
     "hash() is captured in-process (module-level name `hash` shadowed for the duration of the call) and compared with hashKey",
     "the ydayidx literal of __init__ is read from the working tree's AST and compared with the model's table (rd.ydayidx)",
-    "EXECUTABLE-ONLY, NOT PROVED: float-valued day/hour/... fields, `*` and `/` by a float and normalized() are checked only "
+    "PROVED since the dyadic extension (theorems gen_scale_eq_model, mulDyadic_spec, mulDyadic_exact, mulDyadic_int, "
+    "normalized_spec): on INTEGER-valued records `*` by any m/2^k (all integers, 0.5, 1.5, 0.25 ...), `/` by +-2^k and "
+    "normalized(). EXECUTABLE-ONLY, NOT PROVED: float-valued day/hour/... FIELDS, `*` and `/` by other floats (0.1, 1/3, / 3) "
+    "and normalized() of fractional fields are checked only "
     "by the oracle directly on the implementation (algebraic laws: integer-valued normal form, bounds, total preserved "
     "within 2 microseconds, exact agreement with int(field*f) recomputed in Python); no Lean theorem covers them",
     "why no Lean theorem for float scalars: in Lean 4.33 Float + - * / and Float.ofInt reduce in the kernel on literals, but the "
@@ -46,8 +55,12 @@ TRUSTED = [
 ASSUMPTIONS = [
     "integer field magnitudes below 2**1023: _sign() goes through math.copysign, so relativedelta(seconds=10**400) raises "
     "OverflowError before any value exists (observed; outside the model, reported as a remark)",
-    "\"however constructed or combined\" is read as: through the constructor and the operators; assigning attributes of "
-    "the (mutable, hashable) object directly - d.hours = 100, the d.weeks setter - bypasses _fix and is outside the property",
+    "\"however constructed or combined\" includes the object's own history: a relativedelta is mutable (public `weeks` setter, "
+    "attribute assignment).  Attribute assignment bypasses _fix, so the record may leave the normal form and _has_time may go "
+    "stale - that is the code as it is and NOT required to be a value; what IS required (history streams) is that after any "
+    "use/mutate sequence every observation equals the model on the CURRENT record and a fresh object with the same record, "
+    "and relativedelta(**fields) whenever the record is constructor-reachable (theorems use_after_set_eq_fresh, "
+    "same_mutations_same_answer, reachable_state_is_constructed, setWeeks_normalised)",
     "Python's hash of equal tuples of ints/None is equal (CPython guarantee); the theorem is about the tuple that is hashed",
     "asserts enabled (python without -O)",
 ]
@@ -149,28 +162,7 @@ def eval_tree(t, toks):
     raise ValueError(op)
 
 
-def capture_hash_tuple(d):
-    """the tuple relativedelta.__hash__ passes to hash(), canonicalised like Ops `rd.hash`"""
-    from dateutil import relativedelta as R
-    got = []
-
-    def spy(t):
-        got.append(t)
-        return builtins.hash(t)
-    R.hash = spy
-    try:
-        h = hash(d)
-    finally:
-        del R.hash
-    if len(got) != 1 or not isinstance(got[0], tuple) or len(got[0]) != 16:
-        return "unexpected %r" % (got,), h
-    t = got[0]
-    try:
-        w = "-" if t[0] is None else "(%s,%s)" % (L.oint(t[0][0]), L.oint(t[0][1]))
-        # element by element, in the order of the tuple (the model / translation print the same flat form)
-        return " ".join([w] + [L.oint(x) for x in t[1:]]), h
-    except Exception:
-        return "unexpected %r" % (t,), h
+capture_hash_tuple = L.capture_hash_tuple
 
 
 def correspondence(ctx):
@@ -251,6 +243,39 @@ def correspondence(ctx):
         x = L.g_temporal(rng)
         reqs.append("rd.add %s %s" % (L.rd_wire(a), L.t_wire(x))); exp.append(L.run(lambda: x + a, L.t_show))
         ctx.count("corr_add")
+    # (7) exact scaling and normalized() on integer records (values AND raw, non-normalised records as attribute assignment
+    #     leaves them): d * (m / 2**k), (m / 2**k) * d, d / (+-2**k) as int and as float divisor, d.normalized()
+    n_sc = ctx.budget(3000, 30000)
+    for _ in range(n_sc):
+        d = rng.choice(values)
+        if not L.is_int_valued(d):
+            continue
+        if rng.random() < 0.35:
+            d = L.clone_record(d)
+            for k in rng.sample(L.REL, rng.randint(1, 3)):
+                setattr(d, k, L.g_rel(rng, 5000))
+        w = L.rd_wire(d)
+        big = max(abs(getattr(d, k)) for k in L.REL)
+        kk = rng.choice([0, 0, 1, 1, 2, 3, 5, 10])
+        m = rng.choice([1, -1, 3, -3, 5, 7, 10, 25, -100, rng.randint(-2000, 2000)])
+        if big * abs(m) < 2 ** 53:
+            f = m / float(2 ** kk) if kk or rng.random() < 0.5 else m
+            reqs.append("rd.muldy %s %d %d" % (w, m, kk))
+            exp.append(L.run(lambda: d * f if rng.random() < 0.7 else f * d, L.rd_wire))
+            ctx.count("corr_muldy" + ("_int" if kk == 0 else "_fractional"))
+        if big < 2 ** 53:
+            neg = rng.random() < 0.4
+            div = (-1 if neg else 1) * 2 ** kk
+            reqs.append("rd.divp2 %s %d %d" % (w, 1 if neg else 0, kk))
+            exp.append(L.run(lambda: d / (div if rng.random() < 0.5 else float(div)), L.rd_wire))
+            ctx.count("corr_divp2")
+            reqs.append("rd.normalized " + w); exp.append(L.run(lambda: d.normalized(), L.rd_wire))
+            ctx.count("corr_normalized")
+    # (6) the history of one object: use -> mutate (weeks setter / attribute assignment) -> use; after EVERY step the model
+    #     on the current record, rd.setweeks, rd.hist; and the source audit the model's "a use leaves the record alone" rests on
+    history_audit(ctx)
+    hq, he = L.history_corr(ctx, ctx.subrng("corr-history"), values[:ctx.budget(250, 2500)], 8, "corr_history")
+    reqs += hq; exp += he
     reqs, exp = L.with_generated(reqs, exp)
     ctx.count("corr_generated_requests", sum(1 for q in reqs if q.startswith("rdgen.")))
     got = ctx.driver(reqs)
@@ -265,6 +290,14 @@ def correspondence(ctx):
             ctx.mismatch(q.split()[0], q, e, g)
     ctx.traces += len(reqs)
     ctx.count("corr_requests", len(reqs))
+
+
+def history_audit(ctx):
+    sites = L.write_audit()
+    ctx.count("write_audit_sites", len(sites))
+    for site in sites:
+        ctx.mismatch("rd.write_audit", site, "a method of relativedelta writes state outside " + "/".join(L.WRITERS_ALLOWED),
+                     "model: a use leaves the record alone (RDH.step)")
 
 
 def variant(rng, a):
@@ -332,6 +365,18 @@ def check_value(ctx, d, origin, case):
         ctx.violation("bool(d) = %s but no-field-set = %s: %r" % (bool(d), empty, d), case)
     if not (d == d):
         ctx.violation("d != d: %r" % (d,), case)
+    # normalized(): a value again, nothing but days..microseconds re-expressed; the identity on an integer-valued value
+    try:
+        nz = d.normalized()
+    except Exception as ex:
+        if max_field(d) < 2 ** 53:
+            ctx.violation("normalized() raised %s on %r" % (type(ex).__name__, d), case)
+        return
+    if any(getattr(nz, k) != getattr(d, k) for k in L.ABS + ["years", "months", "leapdays"]) or not (nz.weekday == d.weekday):
+        ctx.violation("normalized() changed years / months / leapdays / an absolute field / the weekday: %r -> %r" % (d, nz), case)
+    elif L.is_int_valued(d) and max_field(d) < 2 ** 53 and not (nz == d and hash(nz) == hash(d)
+                                                                and all(getattr(nz, k) == getattr(d, k) for k in L.REL)):
+        ctx.violation("normalized() of an integer-valued value is not the value itself: %r -> %r" % (d, nz), case)
 
 
 def oracle(ctx):
@@ -474,10 +519,20 @@ def oracle(ctx):
     nf = ctx.budget(8000, 60000)
     for _ in range(nf):
         kw = {}
-        for k, s in (("days", 400), ("hours", 60), ("minutes", 200), ("seconds", 5000), ("microseconds", 10 ** 6)):
+        for k, s in (("days", 400), ("hours", 60), ("minutes", 200), ("seconds", 5000), ("microseconds", 10 ** 6), ("weeks", 60)):
             r = rng.random()
+            if k == "weeks" and r > 0.25:
+                continue
             if r < 0.35:
-                kw[k] = rng.choice([0.5, 1.5, -1.5, 0.25, -0.75, 1e-3, round(rng.uniform(-s, s), rng.randint(0, 6))])
+                kw[k] = rng.choice([0.5, 1.5, -1.5, 0.25, -0.75, 1e-3, round(rng.uniform(-s, s), rng.randint(0, 6)),
+                                    # a half / quarter at EVERY unit on top of a signed integer part that carries
+                                    rng.randint(-s, s) + rng.choice([0.5, -0.5, 0.25, 0.75, 0.125]),
+                                    # large magnitudes with a fractional part (exactly representable)
+                                    rng.choice([1, -1]) * (rng.choice([10 ** 5, 10 ** 7, 10 ** 9]) + rng.randint(0, 999) + rng.choice([0.5, 0.25]))])
+                if k == "microseconds" and rng.random() < 0.5:
+                    # fractional MICROSECONDS (below the resolution of timedelta): halves, quarters, just under a carry
+                    kw[k] = rng.choice([0.5, -0.5, 1.5, 0.25, 999999.5, -999999.5, 999999.75, 1000000.5, 123456.75,
+                                        rng.randint(-3 * 10 ** 6, 3 * 10 ** 6) + rng.choice([0.5, 0.25, -0.75])])
             elif r < 0.6:
                 kw[k] = rng.randint(-s, s)
         if rng.random() < 0.3:
@@ -500,7 +555,13 @@ def oracle(ctx):
         if all(isinstance(v, int) for v in kw.values()) and not (nd == d):
             ctx.violation("normalized() of an integer-valued delta differs: %r -> %r" % (d, nd), case)
         # the value laws on the FLOAT-valued delta itself (not only on its normalized() form)
-        tin = sum(fractions.Fraction(v) * UNITS[k] for k, v in kw.items() if k in UNITS)
+        tin = sum(fractions.Fraction(v) * UNITS[k] for k, v in kw.items() if k in UNITS) \
+            + fractions.Fraction(kw.get("weeks", 0)) * 7 * UNITS["days"]
+        for k in kw:
+            if isinstance(kw[k], float) and kw[k] != int(kw[k]):
+                ctx.count("float_fractional_" + k)
+            if isinstance(kw[k], float) and abs(kw[k]) >= 10 ** 5:
+                ctx.count("float_large_" + k)
         if abs(total_us(d) - tin) > fractions.Fraction(1, 100) + abs(tin) / 10 ** 12:
             ctx.violation("float carry changed the total duration by more than 0.01 us: %r from %r" % (d, kw), case)
         check_value(ctx, d, "float constructor", case)
@@ -524,6 +585,11 @@ def oracle(ctx):
     for k in (49, 98, 103, 107, 161, 187, 196, 197, 7, 10):
         check_scalar(ctx, relativedelta(days=k, years=2 * k), k, {"law": "float", "kw": {"days": k, "years": 2 * k}})
     check_nonfinite_fields(ctx)
+    # the history of one object (however constructed: keywords, an expression, a difference of two dates)
+    hr = ctx.subrng("oracle-history")
+    L.history_oracle(ctx, hr, L.g_start_kw, ctx.budget(500, 6000), 10, "history_kw")
+    L.history_oracle(ctx, hr, g_start_expr, ctx.budget(200, 2500), 8, "history_expr")
+    L.history_oracle(ctx, hr, g_start_diff, ctx.budget(200, 2500), 8, "history_diff")
     # int / float / signed-zero / weekday(n as float) twins, explicitly
     for a, b in [(relativedelta(days=1), relativedelta(days=1.0)), (relativedelta(days=0), relativedelta(days=-0.0)),
                  (relativedelta(hours=0.0, seconds=5), relativedelta(seconds=5)),
@@ -610,11 +676,21 @@ def check_scalar(ctx, nd, f, case):
                 ctx.violation("multiplication by the integer-valued scalar %r is not the exact integer product" % (f,), case2)
 
 
+def g_start_expr(rng):
+    a, b = L.g_start_kw(rng), L.g_start_kw(rng)
+    return ("expr", a[1], b[1]) if a and b else None
+
+
+def g_start_diff(rng):
+    a, b = L.g_temporal(rng, ("d", "n")), L.g_temporal(rng, ("d", "n"))
+    return ("diff", L.t_wire(a), L.t_wire(b))
+
+
 def check_nonfinite_fields(ctx):
     """inf / nan passed as a relative field.  What the property needs: either the constructor rejects the value
     (as it must for years/months: ValueError) or the object it returns is a well-behaved value (normal form, d == d)."""
     from dateutil.relativedelta import relativedelta
-    for fld in ("years", "months", "days", "weeks", "hours", "minutes", "seconds", "microseconds"):
+    for fld in ("years", "months", "days", "leapdays", "weeks", "hours", "minutes", "seconds", "microseconds"):
         for v in (INF, -INF, NAN):
             case = {"law": "nonfinite_field", "field": fld, "value": repr(v)}
             ctx.case(("nonfinite", fld, repr(v)), nontrivial=False); ctx.count("nonfinite_field_cases")
@@ -635,19 +711,7 @@ def check_nonfinite_fields(ctx):
                 ctx.count("nonfinite_accepted_wellbehaved")
 
 
-def _nonfinite_known(v):
-    """D-C16-nonfinite, on the OBSERVED outcome: years/months = +-inf raise OverflowError (instead of ValueError);
-    hours..microseconds = +-inf and days..microseconds / weeks = nan are accepted and leave NaN fields."""
-    c = v["case"]
-    if c.get("law") != "nonfinite_field":
-        return False
-    fld, val, out = c.get("field"), c.get("value"), c.get("outcome", "")
-    if fld in ("years", "months"):
-        return val in ("inf", "-inf") and out == "raised:OverflowError"
-    return out.startswith("accepted:") and "nan" in out
-
-
-KNOWN = {"D-C16-nonfinite": _nonfinite_known}
+KNOWN = {}     # D-C16-nonfinite was repaired in /repo (known_findings.d/00-fixed.json); check_nonfinite_fields reports it again
 
 
 def replay(ctx, payload):
@@ -668,6 +732,8 @@ def replay(ctx, payload):
         print("a=%r b=%r a==b:%s hash-equal:%s" % (a, b, a == b, hash(a) == hash(b)))
         if (a == b) != (hash(a) == hash(b)):
             sub.violation("wdspell", c)
+    elif law == "history":
+        return L.replay_history(c)
     elif law == "nonfinite_field":
         check_nonfinite_fields(sub)
         sub.violations = [v for v in sub.violations if v["case"]["field"] == c["field"] and v["case"]["value"] == c["value"]]
